@@ -25,7 +25,7 @@ def result_of(sid):
 
 
 def main():
-    for name in ('round8.md', 'round9.md'):
+    for name in ("round8.md", "round9.md"):
         p = os.path.join(HERE, 'docs', name)
         if not os.path.exists(p):
             continue
